@@ -106,6 +106,10 @@ def evaluate(rp, rng):
     try:
         model, trace = mm.fit(name, data, init, iterations=rp['iterations'], **o)
     except Exception as e:
+        if core.deliberate_exception(e):
+            # a class collapsed (sklearn's ill-defined covariance) or a finiteness assertion fired: the trajectory left
+            # the guard-free region the property quantifies over
+            return None, None, None, False
         return 'fit raised %s: %s' % (type(e).__name__, str(e)[:200]), 'ascent:raises:%s' % name, None, False
     L, lps, ws = [], [], []
     for rec in trace:
